@@ -196,6 +196,10 @@ def c07(tier, hook=None):
     ck.cov["rule"] = ("every transition of the MC_Clone state graph (all shapes, all ordered value pairs, clone and clone_from in both directions) replayed on "
                       "tuple/named/generic guises through both entry points, plus seeded 12-step histories validated with state")
     ck.cov["exhaustive"] = True
+    if not hook:
+        # histories of calls on one derived type (MC_Life): this property's calls judged with state
+        import checks_life
+        checks_life.life_stage(ck, tier, ["C07"], tag="life_c07")
     return ck.finish() if not hook else None
 
 
@@ -297,6 +301,10 @@ def c08(tier, hook=None):
     ck.cov["distinct_nontrivial"] = len(set(json.dumps(e, sort_keys=True) for e in events))
     ck.cov["rule"] = "10 binary operators x 4 reference forms, 10 compound assignments x 2, Neg/Not x 2, on unit/tuple/named structs with 0..4 free-term-algebra fields (plus generic instances), both entry points"
     ck.cov["exhaustive"] = True
+    if not hook:
+        # histories of calls on one derived type (MC_Life): this property's calls judged with state
+        import checks_life
+        checks_life.life_stage(ck, tier, ["C08"], tag="life_c08")
     return ck.finish() if not hook else None
 
 
@@ -589,6 +597,10 @@ def c10(tier, hook=None):
     ck.cov["distinct_nontrivial"] = len(set(json.dumps(e, sort_keys=True) for e in events))
     ck.cov["rule"] = "unit/tuple/named structs with 0..3 fields x every subset ignored x each transparent choice, random enums mixing variant kinds, %d format specs, leaf types incl. nested derived struct, float, str, Option, tuple, Vec; both entry points; second oracle: std-derived twin" % len(rf.FLAGS)
     ck.cov["exhaustive"] = False
+    if not hook:
+        # histories of calls on one derived type (MC_Life): this property's calls judged with state
+        import checks_life
+        checks_life.life_stage(ck, tier, ["C10"], tag="life_c10")
     return ck.finish() if not hook else None
 
 
@@ -708,6 +720,10 @@ def c11(tier, hook=None):
     ck.cov["distinct_nontrivial"] = len(set(json.dumps(e, sort_keys=True) for e in events))
     ck.cov["rule"] = "structs: every #[default(expr)] kind x position x shape; enums: every marking of 1..3 variants x type-level value x value on a variant; provenance-recording field type; both entry points"
     ck.cov["exhaustive"] = False
+    if not hook:
+        # histories of calls on one derived type (MC_Life): this property's calls judged with state
+        import checks_life
+        checks_life.life_stage(ck, tier, ["C11"], tag="life_c11")
     return ck.finish() if not hook else None
 
 
@@ -839,6 +855,10 @@ def c18(tier, hook=None):
     ck.cov["distinct_nontrivial"] = len(cases) + len(rej)
     ck.cov["rule"] = "single-field tuple/named structs x 5 field types (String, Box<[u8]>, u8, Vec, &str) x generic (inline bound / where) x both entry points: address identity, Target type identity, write-through; arities 0..4 x {Deref},{DerefMut},{both} for the rejection"
     ck.cov["exhaustive"] = True
+    if not hook:
+        # histories of calls on one derived type (MC_Life): this property's calls judged with state
+        import checks_life
+        checks_life.life_stage(ck, tier, ["C18"], tag="life_c18")
     return ck.finish() if not hook else None
 
 
